@@ -30,10 +30,12 @@ Theorem C19_alignment : forall pos pre data, len pre = pos ->
     read_mmap_offset (pre ++ hdr ++ data) pos = Ok (pos + 1 + pad) /\
     skipn (Z.to_nat (pos + 1 + pad)) (pre ++ hdr ++ data) = data.
 Proof. exact alignment_live. Qed.
+Print Assumptions C19_alignment.
 
 Example C19_alignment_example : writer_padding NUMPY_ARRAY_ALIGNMENT_BYTES 21 = Ok 10 /\
   header_bytes NUMPY_ARRAY_ALIGNMENT_BYTES 21 = Ok (10 :: repeat 255 10%nat).
 Proof. exact alignment_example. Qed.
+Print Assumptions C19_alignment_example.
 
 (* For every shape of any rank (zero extents included), either order, every in-bounds index vector:
    the element read back at idx is the element written from idx -- "F-order write, reshape to the
@@ -48,15 +50,18 @@ Proof.
   intros T o shape elem idx d H. destruct (order_roundtrip T o shape elem idx d H) as [H1 H2].
   exact (conj H1 (conj H2 (c_index_rev shape idx (in_bounds_length shape idx H)))).
 Qed.
+Print Assumptions C19_order.
 
 Theorem C19_order_zero_extent : forall shape, In 0%nat shape ->
   count shape = 0%nat /\ forall idx, ~ in_bounds shape idx.
 Proof. exact zero_extent_empty. Qed.
+Print Assumptions C19_order_zero_extent.
 
 Example C19_order_example :
   write_elems OrdF [2; 3]%nat (fun idx => idx) = [[0; 0]; [1; 0]; [0; 1]; [1; 1]; [0; 2]; [1; 2]]%nat /\
   read_elem OrdF [2; 3]%nat (write_elems OrdF [2; 3]%nat (fun idx => idx)) [1; 2]%nat [] = [1; 2]%nat.
 Proof. exact order_example. Qed.
+Print Assumptions C19_order_example.
 
 (* The chunked read loop, for every element count >= 0 and item size >= 1, with the live BUFFER_SIZE:
    max_read_count >= 1; the chunks tile [0, count) contiguously and in order; each read asks for
@@ -69,10 +74,12 @@ Theorem C19_chunks : forall itemsize cnt, 1 <= itemsize -> 0 <= cnt ->
     Forall (fun c => 1 <= snd (fst c) <= mrc /\ snd c = snd (fst c) * itemsize) l /\
     forall s, concat (reads (sizes l) s) = firstn (Z.to_nat (cnt * itemsize)) s.
 Proof. intros. apply chunks_spec; [exact live_buffer_size_pos | assumption | assumption]. Qed.
+Print Assumptions C19_chunks.
 
 Example C19_chunks_example : chunks BUFFER_SIZE 8 100000 =
   Ok [(0, 32768, 262144); (32768, 32768, 262144); (65536, 32768, 262144); (98304, 1696, 13568)].
 Proof. exact chunks_example. Qed.
+Print Assumptions C19_chunks_example.
 
 (* _reduce_memmap_backed / _strided_from_memmap, for every view of a memmap:
    (a) non-contiguous, no negative stride: every element is rebuilt at its own file offset, and when the
@@ -99,6 +106,7 @@ Proof.
   - intros Hc Hf Hi Hs. exact (memmap_strided a m r idx Hc Hf Hi Hs Hr Hb).
   - intros Hi Hcase. exact (memmap_contiguous a m r idx Hi Hb Hr Hcase).
 Qed.
+Print Assumptions C19_memmap_view.
 
 (* the transpose of a C-ordered memmap (finding F28, fixed in /repo): the order of the view is sent *)
 Example C19_memmap_transposed_example :
@@ -107,6 +115,7 @@ Example C19_memmap_transposed_example :
   recon_elem_off transposed_view (0, OrdF, None, None) [0; 1] = 24 /\
   orig_elem_off transposed_view c_backing [0; 1] = 24.
 Proof. exact transposed_example. Qed.
+Print Assumptions C19_memmap_transposed_example.
 
 Example C19_memmap_view_example :
   v_c strided_view = false /\ v_f strided_view = false /\ 1 <= v_isz strided_view /\
@@ -115,6 +124,7 @@ Example C19_memmap_view_example :
   in_boundsZ (v_shape strided_view) [2] /\
   reduce_memmap strided_view neg_backing = Ok (16, OrdF, Some [16], Some 5).
 Proof. exact strided_example. Qed.
+Print Assumptions C19_memmap_view_example.
 
 (* ---- statements that are FALSE of the unchanged code (known findings F19, F20, F21) ----
 
@@ -126,6 +136,7 @@ Proof. exact strided_example. Qed.
 Theorem C19_itemsize_zero_refuted :
   writer_buffersize 0 = Raise ZeroDivisionError /\ max_read_count BUFFER_SIZE 0 = Raise ZeroDivisionError.
 Proof. exact itemsize_zero_raises. Qed.
+Print Assumptions C19_itemsize_zero_refuted.
 
 (* F20  c19:memmap-negative-stride-view -- a = m[::-1]: the offset names the lowest byte but as_strided
    starts there with negative strides: element 0 is the wrong element, element 1 lies before the buffer *)
@@ -134,6 +145,7 @@ Theorem C19_memmap_negative_stride_refuted : exists r,
   recon_elem_off neg_view r [0] <> orig_elem_off neg_view neg_backing [0] /\
   recon_elem_off neg_view r [1] < fst (recon_range neg_view r).
 Proof. exact negative_stride_refuted. Qed.
+Print Assumptions C19_memmap_negative_stride_refuted.
 
 (* F21  c19:memmap-buffer-len-floor-nonmultiple-stride -- field view with stride 9, item size 8:
    total_buffer_len floors, the last element ends one byte after the rebuilt buffer *)
@@ -142,3 +154,4 @@ Theorem C19_memmap_buffer_len_floor_refuted : exists r,
   recon_elem_off field_view r [9] = orig_elem_off field_view neg_backing [9] /\
   snd (recon_range field_view r) < recon_elem_off field_view r [9] + v_isz field_view.
 Proof. exact buffer_len_floor_refuted. Qed.
+Print Assumptions C19_memmap_buffer_len_floor_refuted.
